@@ -2,6 +2,7 @@ import Pyrtma.Proofs.ManagerInv
 import Pyrtma.Proofs.ManagerStatsQuiet
 import Pyrtma.Proofs.ManagerStatsRecv
 import Pyrtma.Proofs.ManagerId
+import Pyrtma.Proofs.ManagerStatsTab
 /-!
 # The receivers of one frame after another (model side of the MESSAGE_TRAFFIC clause)
 
@@ -259,6 +260,142 @@ theorem broadcast_foldl {B : Body → Bool} (hB : Tag cfg B) (hord : OrderGood c
       exact hcnt
     rw [hone]
     split <;> simp
+
+omit ok hfuel in
+theorem trafficFrames_props (seq : Nat) (c : List (Int × Nat)) :
+    ∀ f ∈ trafficFrames cfg seq c, isTrafficB f.body = true ∧ f.mtype = cfg.mtTraffic ∧ f.dest = 0 ∧ f.destHost = 0 := by
+  intro f hf
+  unfold trafficFrames at hf
+  obtain ⟨p, _, rfl⟩ := List.mem_map.mp hf
+  exact ⟨rfl, rfl, rfl, rfl⟩
+
+omit ok hfuel in
+theorem pres_of_same {s s' : State} (hm : s'.mods = s.mods) (hi : s'.idx = s.idx) (hl : s'.loggers = s.loggers)
+    (hw : s'.wlist = s.wlist) (hf : s'.fail = s.fail) (ho : s'.out = s.out) (hn : s'.nextUid = s.nextUid) : Pres s s' := by
+  have hfind : ∀ u, s'.find u = s.find u := fun u => by unfold State.find; rw [hm]
+  exact ⟨hw, hf, fun u _ => by rw [hfind], fun u h => by rw [hfind]; exact h, fun u m h => ⟨m, by rw [← hfind]; exact h, rfl, id⟩,
+    fun t u h => by rw [← hi]; exact h, fun u h => by rw [← hl]; exact h, ⟨[], by simp [ho]⟩, by rw [hm]; exact List.Sublist.refl _, hn⟩
+
+/-- what the statistics sends before the MESSAGE_TRAFFIC sub-messages leave untouched -/
+structure TF (s s' : State) : Prop where
+  qe : QE isTrafficB s s'
+  pres : Pres s s'
+  ikp : IKP s s'
+  rk : RK s s'
+  traffic : s'.traffic = s.traffic
+  seq : s'.trafficSeq = s.trafficSeq
+  now : s'.now = s.now
+  tR : s'.tTraffic = s.tTraffic
+
+omit ok hfuel in
+theorem TF.refl (s : State) : TF s s := ⟨QE.refl _ s, Pres.refl s, IKP.refl s, RKP.refl _ s, rfl, rfl, rfl, rfl⟩
+
+omit ok hfuel in
+theorem TF.trans {a b c : State} (h1 : TF a b) (h2 : TF b c) : TF a c :=
+  ⟨h1.qe.trans h2.qe, h1.pres.trans h2.pres, h1.ikp.trans h2.ikp, h1.rk.trans h2.rk, h2.traffic.trans h1.traffic,
+   h2.seq.trans h1.seq, h2.now.trans h1.now, h2.tR.trans h1.tR⟩
+
+omit ok hfuel in
+theorem tf_same {s s' : State} (hm : s'.mods = s.mods) (hi : s'.idx = s.idx) (hl : s'.loggers = s.loggers)
+    (hw : s'.wlist = s.wlist) (hf : s'.fail = s.fail) (ho : s'.out = s.out) (hn : s'.nextUid = s.nextUid)
+    (h1 : s'.traffic = s.traffic) (h2 : s'.trafficSeq = s.trafficSeq) (h3 : s'.now = s.now) (h4 : s'.tTraffic = s.tTraffic) :
+    TF s s' :=
+  ⟨QE_same ho, pres_of_same hm hi hl hw hf ho hn, ikp_same hf hi, rkp_same hm, h1, h2, h3, h4⟩
+
+omit ok hfuel in
+/-- a frame that is no MESSAGE_TRAFFIC sub-message, handled inside the statistics context -/
+theorem tf_fwdTop_stats {s : State} (hin : s.inTraffic = true) (g : Frame) (hb : isTrafficB g.body = false) :
+    TF s (fwdTop cfg s g) := by
+  obtain ⟨e, ha⟩ := fwdTop_any cfg s g
+  have hm : Marks (fun _ => true) true e := by have := ha.marks; rw [hin] at this; exact this
+  exact ⟨fwdTop_QI cfg (tag_traffic cfg) ctlIO_traffic s g hb, fwdTop_pres cfg s g, fwdTop_ikp cfg s g,
+    fwdTop_rk cfg (fun _ => false) s g, by rw [ha.traffic, tallyOn_stats _ hm], ha.seq, ha.now, ha.tR⟩
+
+omit ok hfuel in
+theorem tf_logAt_stats {s : State} (hin : s.inTraffic = true) (lvl : Nat) : TF s (logAt cfg (fwdTop cfg) lvl s) := by
+  unfold logAt; split
+  · exact tf_fwdTop_stats hin _ rfl
+  · exact TF.refl s
+
+/-- the TIMING part of the periodic section leaves the MESSAGE_TRAFFIC state alone -/
+theorem timingPart_tf {s : State} (hT : Top cfg s) (hidle : s.inTraffic = false) (t1 : Bool) :
+    TF s (if t1 = true then { sendTiming cfg s with tTiming := s.now } else s) ∧
+    Top cfg (if t1 = true then { sendTiming cfg s with tTiming := s.now } else s) ∧
+    (if t1 = true then { sendTiming cfg s with tTiming := s.now } else s).inTraffic = false := by
+  cases t1 with
+  | false => exact ⟨TF.refl s, hT, hidle⟩
+  | true =>
+    simp only [if_true]
+    unfold sendTiming
+    dsimp only
+    generalize hfr : mgrFrame cfg.mtTiming 0 cfg.szTiming (Body.timing (timingEntries cfg s.counts) (pidEntries s.mods)) = fr
+    have hbf : isTrafficB fr.body = false := by subst hfr; rfl
+    generalize hs0 : ({ s with counts := [], inTraffic := true } : State) = s0
+    have h0 : TF s s0 := by subst hs0; exact tf_same rfl rfl rfl rfl rfl rfl rfl rfl rfl rfl rfl
+    have hT0 : Top cfg s0 := by subst hs0; exact top_same ok hfuel hT _ rfl rfl rfl
+    have hin0 : s0.inTraffic = true := by subst hs0; rfl
+    have h1 := tf_fwdTop_stats (cfg := cfg) hin0 fr hbf
+    have hT1 := top_fwd ok hfuel hT0 fr
+    generalize fwdTop cfg s0 fr = s1 at h1 hT1
+    exact ⟨(h0.trans h1).trans (tf_same rfl rfl rfl rfl rfl rfl rfl rfl rfl rfl rfl), top_same ok hfuel hT1 _ rfl rfl rfl, rfl⟩
+
+/-- the MESSAGE_TRAFFIC report itself: every receiver gets it whole and in order, or not at all -/
+theorem sendTraffic_rows (hna : MgrNotAll cfg) (hord : OrderGood cfg) {s1 : State} (t1 : Top cfg s1) (f0 : Frame) (h0 : f0.dest = 0) :
+    ∃ sL, TF s1 sL ∧ ∀ o,
+      (dataSends isTrafficB (sendTraffic cfg s1).out).filter (·.1 == o) = (dataSends isTrafficB s1.out).filter (·.1 == o) ++
+        (if recvB cfg sL cfg.mtTraffic f0 o = true
+         then (trafficFrames cfg s1.trafficSeq s1.traffic).map (fun f => (o, f)) else []) := by
+  have hB := tag_traffic cfg
+  have htt : cfg.mtTraffic ≠ cfg.allTypes := hna _ (by unfold mgrType; simp)
+  unfold sendTraffic
+  dsimp only
+  generalize hsa : ({ s1 with inTraffic := true } : State) = sa
+  have ha : TF s1 sa := by subst hsa; exact tf_same rfl rfl rfl rfl rfl rfl rfl rfl rfl rfl rfl
+  have hTa : Top cfg sa := by subst hsa; exact top_same ok hfuel t1 _ rfl rfl rfl
+  have hina : sa.inTraffic = true := by subst hsa; rfl
+  have hL := tf_logAt_stats (cfg := cfg) hina 10
+  have hTL := top_log ok hfuel hTa 10
+  generalize logAt cfg (fwdTop cfg) 10 sa = sL at hL hTL
+  have tfL := ha.trans hL
+  rw [tfL.traffic, tfL.seq]
+  refine ⟨sL, tfL, fun o => ?_⟩
+  have hfold := broadcast_foldl ok hfuel hB hord cfg.mtTraffic htt f0 h0 o (trafficFrames cfg s1.trafficSeq s1.traffic) hTL
+    (trafficFrames_props s1.trafficSeq s1.traffic)
+  show (dataSends isTrafficB ((trafficFrames cfg s1.trafficSeq s1.traffic).foldl (fwdTop cfg) sL).out).filter _ = _
+  rw [hfold, dataSends_of_QE tfL.qe]
+
+/-- **the MESSAGE_TRAFFIC frames of the periodic section, per receiver**: a connection gets either the whole report of the
+    interval — the sub-messages built from the counter table and the interval number as they are when the section starts,
+    in order — or nothing; `sL` is the state in which the first sub-message is handled -/
+theorem ticks_traffic (hna : MgrNotAll cfg) (hord : OrderGood cfg) {s : State} (hT : Top cfg s) (hidle : s.inTraffic = false)
+    (f0 : Frame) (h0 : f0.dest = 0) :
+    ∃ sL, Pres s sL ∧ IKP s sL ∧ RK s sL ∧ ∀ o,
+      (dataSends isTrafficB (ticks cfg s).out).filter (·.1 == o) = (dataSends isTrafficB s.out).filter (·.1 == o) ++
+        (if s.now - s.tTraffic > 1000 ∧ recvB cfg sL cfg.mtTraffic f0 o = true
+         then (trafficFrames cfg s.trafficSeq s.traffic).map (fun f => (o, f)) else []) := by
+  have hB := tag_traffic cfg
+  have hC := ctlIO_traffic
+  have hactive : ∀ s2 : State, QE isTrafficB s2 (if s2.now - s2.tInfo > 5000 then sendActive cfg s2 else s2) := by
+    intro s2
+    split
+    · unfold sendActive
+      exact (((logAt_QI cfg hB hC 10 _).trans (infoAll_QI cfg hB hC _ _)).trans (fwdTop_QI cfg hB hC _ _ rfl)).trans (QE_same rfl)
+    · exact QE.refl _ _
+  unfold ticks
+  dsimp only
+  obtain ⟨tf1, t1, id1⟩ := timingPart_tf ok hfuel hT hidle (cfg.timing && decide (s.now - s.tTiming > 900))
+  generalize (if (cfg.timing && decide (s.now - s.tTiming > 900)) = true then
+      { sendTiming cfg s with tTiming := s.now } else s) = s1 at tf1 t1 id1 ⊢
+  rw [tf1.now, tf1.tR]
+  by_cases ht2 : s.now - s.tTraffic > 1000
+  · simp only [ht2, if_true, true_and]
+    obtain ⟨sL, tfL, hrows⟩ := sendTraffic_rows ok hfuel hna hord t1 f0 h0
+    have tf := tf1.trans tfL
+    refine ⟨sL, tf.pres, tf.ikp, tf.rk, fun o => ?_⟩
+    rw [dataSends_of_QE (hactive _), hrows o, dataSends_of_QE tf1.qe, tf1.traffic, tf1.seq]
+  · simp only [ht2, if_false, false_and]
+    refine ⟨s1, tf1.pres, tf1.ikp, tf1.rk, fun o => ?_⟩
+    rw [dataSends_of_QE (hactive _), dataSends_of_QE tf1.qe]; simp
 
 end withcfg
 
